@@ -6,8 +6,9 @@ from common import sh2
 LEVEL = "proof"
 MANIFEST = {
     "technique": "Coq proof over hand-written Gallina models with explicit panic / cost semantics (FixedSliceReader, box headers, "
-                 "both container child loops, the file-assembly state machine over box shapes) + differential correspondence "
-                 "(extracted OCaml vs Go) + structured mutation fuzzing in an isolated worker process",
+                 "both container child loops, the file-assembly state machine over box shapes, the count-guard-then-allocate prologues "
+                 "of 21 table-box decoders) + differential correspondence (extracted OCaml vs Go: outcome class, grouping, decoded entry "
+                 "count, allocation bucket) + structured mutation fuzzing and count/length-field inflation in an isolated worker process",
     "level_text": "PROVED for all inputs (coq/c04/C04Theorems.v): every bits.FixedSliceReader method keeps 0 <= pos <= len and never "
                   "panics under the stated caller guards (with machine-checked refutations for negative lengths, SkipBytes overflow, "
                   "ReadPossiblyZeroTerminatedString and LookAhead); DecodeHeader/DecodeHeaderSR and DecodeBox/DecodeBoxSR with both "
@@ -15,11 +16,24 @@ MANIFEST = {
                   "with ticks+alloc <= 2*len+29 (SliceReader path) / 6*len+29 (io.Reader path) (leaf bodies opaque: any leaf decoder satisfying the stated contract, instantiated for mdat/free/skip/unknown); the file "
                   "assembly (DecodeFile/DecodeFileSR loops, AddChild, startSegmentIfNeeded, findAndReadMfra, senc second pass), "
                   "File.Encode/EncodeSW in both modes and File.Info never panic on any list of top-level box shapes under any decode "
-                  "options, for the REPAIRED text; the pinned text is refuted at 9 sites by concrete shape lists. "
-                  "EXPLORED only: the ~130 leaf decoder/encoder/Info bodies, real wall-clock time and real heap (the model's ticks are "
-                  "not seconds): structured mutation fuzzing of all testdata files and boxes with per-input time and allocation budgets.",
+                  "options, for the REPAIRED text; the pinned text is refuted at 9 sites by concrete shape lists; the prologues (size guard "
+                  "expectedSize / remaining bytes, per-entry size as a function of version and flags, make([]T, n) with its element size, "
+                  "entry loop with the accumulated-error reader) of trun stts ctts stsc stsz stco co64 stss sdtp saiz saio senc sbgp elst tfra "
+                  "sidx pssh ssix tref-type leva and sgpd/alst return for EVERY header and body, request at most a*size+b bytes and loop at "
+                  "most size/entry+c times (C04_alloc_<box>; box level on both paths: <= 8*len+1048560 bytes, <= 2*len+65535 iterations for "
+                  "every byte string below 32 GiB), with machine-checked refutations for the pinned sgpd/alst text (4 GiB from 28 bytes, "
+                  "repaired) and for ctts at exactly 32 GiB (uint32 wrap of entryCount+1, not reproducible). "
+                  "EXPLORED only: the other ~110 leaf decoder bodies, all encoder/Info bodies, the value-dependent tails of ssix/leva/sgpd/subs, "
+                  "senc.ParseReadBox, real wall-clock time and real heap (the model's ticks are "
+                  "not seconds): structured mutation fuzzing of all testdata files and boxes, and count/length-field inflation (0, 1, exact, "
+                  "exact+1, 1024, 1025, 2^16, 2^22, 2^31-1, 2^31, 2^32-4, 2^32-1 clipped to the field width) of every count or length field of "
+                  "34 box types under every version/flags combination that changes the per-entry size (incl. size 0), compact and "
+                  "large-size header, trailing bytes, both decode paths, box level and nested in a file, plus a catch-all (every registered "
+                  "box type, 32-bit word at each of the first offsets inflated), with per-input time and allocation budgets.",
     "level_note": "Trusted: Coq kernel, extraction, OCaml/Go glue, the shape renderer. The models are hand transcriptions tied to /repo "
-                  "by the correspondence on generated inputs only. io.Reader is a bytes.Reader (no I/O errors). Shapes carry clear "
+                  "by the correspondence on generated inputs only; the prologue models count the bytes REQUESTED with make/append (Go's append "
+                  "growth factor and allocator rounding are trusted: measured bytes must lie between model/2 (tables >= 128 KiB) and "
+                  "4*model + 64*len + 1 MiB). io.Reader is a bytes.Reader (no I/O errors). Shapes carry clear "
                   "(unencrypted) tracks and no sbgp/sgpd.",
 }
 
@@ -47,13 +61,18 @@ def run(ctx):
         "model: coq/c04/C04Model.v (bits/fixedslicereader.go, mp4/box.go DecodeHeader/DecodeBox/readBoxBody, mp4/boxsr.go "
         "DecodeHeaderSR/DecodeBoxSR, mp4/container.go both child loops) and coq/c04/C04AsmModel.v (mp4/file.go, boxsr.go file loops, "
         "traf.go ParseReadSenc, moof.go/fragment.go/mediasegment.go/initsegment.go Encode, Info traversal) are hand transcriptions",
+        "model: coq/c04/C04AllocModel.v (prologues of mp4/trun.go stts.go ctts.go stsc.go stsz.go stco.go co64.go stss.go sdtp.go saiz.go "
+        "saio.go senc.go sbgp.go elst.go tfra.go sidx.go pssh.go ssix.go tref.go leva.go samplegroupentries.go(alst)) hand transcription; "
+        "element sizes are Go 64-bit struct layouts",
         "harness/c04: shape renderer (minimal valid boxes with chosen pointers absent / counts zero), worker isolation, budgets",
     ]
     ctx.assumptions += [
         "io.Reader is a bytes.Reader over the whole input (EOF is the only read error); Go int is 64 bit",
-        "time budget per operation 1.5 s + 2 us/byte, allocation budget per operation 64*len + 4 MiB (runtime/metrics heap allocs), "
+        "time budget per operation 1.5 s + 2 us/byte, allocation budget per operation 64*len + 16 MiB (runtime/metrics heap allocs: a "
+        "64 MiB request from a 24-byte box is an overalloc), "
         "address space of harness and workers limited to %d KiB" % ULIMIT_KB,
-        "leaf decoder bodies are opaque in the proofs (contract: no panic, reader invariant kept, cost <= bytes consumed + 1)",
+        "leaf decoder bodies are opaque in the container proofs (contract: no panic, reader invariant kept, cost <= bytes consumed + 1); "
+        "the table-box prologues are modelled separately (C04AllocModel.v) and not composed with the container theorem",
     ]
     exe, model = build(ctx)
     pr = ctx.proofs("c04", "C04Theorems.v")
@@ -79,7 +98,10 @@ def run(ctx):
                               "ints); B: random box trees over {moov,moof,traf,mfra,udta,dinf | free,skip,mdat,unknown} (large-size headers 1/8) "
                               "with truncation / size-field / large-size corruption, both decode paths; A: all shape lists up to the given length "
                               "over 29 letters x decode options (reader/SR x normal/lazy x flags none/ISM/start-on-moof) + random longer lists, "
-                              "observables: outcome class, grouping, StartPos, Info x3, Encode/EncodeSW x2 modes",
+                              "observables: outcome class, grouping, StartPos, Info x3, Encode/EncodeSW x2 modes; C: count/length-field inflation of "
+                              "the 21 modelled table boxes (every version/flags variant x field x 12 values, compact/large header, trailing "
+                              "bytes, 0..3 and 16384 real entries) + random corruption of those, each on both paths; observables: outcome class, "
+                              "decoded entry count, log2 bucket of the bytes allocated",
     }
     if stats:
         ctx.notes["corr_worker_stats"] = {"worst_op_ns": int(stats[0][1]), "on_bytes": int(stats[0][2]),
@@ -121,7 +143,7 @@ def run(ctx):
     ctx.proof_violation_if_broken(pr, "c04 search: %d evaluations" % ctx.notes.get("search_evaluations", 0))
     ctx.cov["rule"] = ("corr: reader op histories, mutated box trees on both paths, all shape lists up to length %d x options; "
                        "distinct = distinct case lines (input + observables); search: structured mutants of every testdata file "
-                       "(truncation at box boundaries +-1, 32/64-bit size corruption, count inflation, version/flags, removal, "
+                       "(truncation at box boundaries +-1, 32/64-bit size corruption, count inflation on harvested boxes, structured count/length-field inflation of 34 box types x version/flags variants at box level and nested in a file, catch-all word inflation of every registered box type, version/flags, removal, "
                        "duplication, swap, byte corruption, type confusion = the same bytes under every other registered box type, splice = boxes harvested from all testdata files inserted into containers) through decode x options, Info x3, both encoders x2 modes, and of every "
                        "harvested box through DecodeBox/DecodeBoxSR/Info/Encode; classes ok|err|panic|hang|overalloc" % exh)
 
